@@ -57,7 +57,10 @@ def gen(rng, tier):
                         "submit_at": rng.choice([0, 0, 0.05, 0.2])}
     pf = {"raise_at": sorted(set(rng.choice([1, 2, 3, 4, 6]) for _ in range(rng.choice([0, 0, 1, 2])))),
           "ret": rng.choice([None, None, 0.2, 1.0]), "dur": rng.choice([0, 0, 0.05]), "interval": rng.choice([0.5, 1.0, 5.0]),
-          "cancel_fn": rng.choice([None, "true", "false", "raise"])}
+          "cancel_fn": rng.choice([None, "true", "false", "raise"]),
+          # the poll function may treat its argument as a work list and empty it (pop / clear):
+          # the list is the caller's to consume, the next call must get a fresh, complete one
+          "consume": rng.random() < 0.15}
     nclients = rng.choice([1, 2])
     clients = []
     for c in range(nclients):
@@ -100,7 +103,10 @@ def run(spec, env):
                 e = env.exc(("pollfn", n))
                 env.rec("poll-raise", n)
                 raise e
-            for d in descriptors:
+            todo = list(descriptors)
+            if pf.get("consume"):
+                del descriptors[:]
+            for d in todo:
                 v = d.result
                 s = sub_of(v)
                 sub = spec["subs"][str(s)]
